@@ -255,10 +255,20 @@ static void one_case(long idx, void *arg)
             const char *dash = strrchr(names[which], '-'); j.ref = atoll(dash + 1); j.pid = getpid(); j.order = (int)vrnd_n(&r, 2);
             static const char *const pool[] = { "xcm.type", "xcm.local_addr", "tls.key", "tls.cert", "tls.peer.cert.subject.cn", "no.such.attr", "xcm.blocking" };
             snprintf(j.name, sizeof j.name, "%s", pool[vrnd_n(&r, 7)]);
-            pthread_t th; pthread_create(&th, NULL, xjob_thread, &j);
-            double t0 = vnow(); while (!j.done && vnow() - t0 < 5) { owner_service(&ow); struct pollfd none; vs_real_poll(&none, 0, 1); }
-            pthread_join(th, NULL);
+            /* libxcmctl gives up after 300 ms of wall-clock time without a reply: on a loaded machine the owner's turn may simply come
+             * later.  A time-out is retried with a new session; only three in a row, with the owner serviced throughout, count */
+            struct xjob j0 = j; bool timed_out = false;
+            for (int attempt = 0; attempt < 3; attempt++) {
+                j = j0;
+                pthread_t th; pthread_create(&th, NULL, xjob_thread, &j);
+                double t0 = vnow(); while (!j.done && vnow() - t0 < 5) { owner_service(&ow); struct pollfd none; vs_real_poll(&none, 0, 1); }
+                pthread_join(th, NULL);
+                timed_out = j.rc1 != -2 && ((j.rc1 < 0 && j.err1 == EAGAIN) || (j.rc2 < 0 && j.err2 == EAGAIN));
+                if (!timed_out) break;
+                vobs("libxcmctl_timeouts_retried", 1);
+            }
             vobs("libxcmctl_sessions", 1);
+            if (timed_out) { cv("xcmc-times-out", "three-sessions-in-a-row", "three libxcmctl sessions in a row got no reply within its 300 ms although the owner was making event-loop turns all the time (get \"%s\": %d errno %d; get_all: %d errno %d)", j.name, j.rc1, j.err1, j.rc2, j.err2); free(m); continue; }
             if (j.rc1 == -2) { vobs("libxcmctl_open_failed", 1); }
             else {
                 unsigned char ref[600]; enum xcm_attr_type rt; int rrc, rerr; { SCX("xcm_attr_get", 8); errno = 0; rrc = xcm_attr_get(os, j.name, &rt, ref, 512); rerr = errno; vs_leave(); }
